@@ -702,6 +702,57 @@ def case_files(ctx):
                         ctx.count("cli_vs_library_compared")
                         same_formula(ctx, tail[0] + "[file]", label, F, ref)
                         ctx.judged(("degenerate-file", tool, nv, fmt, tuple(tail[:2]), tail.index(path)), nontrivial=True, sample={"command": label})
+        # the one-string form of a graph specification and file names with backslashes / quotes (next to a decoy whose
+        # name is the same without them)
+        from cnfgen.clitools.graph_args import make_graph_from_spec
+        from cnfgen.graphs import writeGraph
+        P4 = Graph(4)
+        for e in ((1, 2), (2, 3), (3, 4)):
+            P4.add_edge(*e)
+        for real, decoy in (("net\\work.gml", "network.gml"), ('q"uote.kthlist', "quote.kthlist"), ("it's.gml", "its.gml"), ("a\\ b.kthlist", "a b.kthlist")):
+            fmt = real.rsplit(".", 1)[1]
+            writeGraph(P4, os.path.join(tmp, real), "simple", fmt)
+            writeGraph(K3, os.path.join(tmp, decoy), "simple", fmt)
+            path = os.path.join(tmp, real)
+            ref = g.GraphColoringFormula(P4, 2)
+            for how, make in (("list", lambda: make_graph_from_spec("simple", [fmt, path])),
+                              ("string", (lambda: make_graph_from_spec("simple", fmt + " " + path)) if " " not in real else None),
+                              ("command line", lambda: None)):
+                if make is None:
+                    continue
+                label = "kcolor 2 on the graph named by the %s specification %s <dir>/%s" % (how, fmt, real)
+                ctx.count("graph_file_inputs")
+                ctx.count("odd_file_name_specifications")
+                if how == "command line":
+                    st, F = run_cli("cnfgen", ["kcolor", "2", fmt, path], 1)
+                else:
+                    st, G_ = ctx.call(make)
+                    F = g.GraphColoringFormula(G_, 2) if st == "ok" else G_
+                if st != "ok":
+                    ctx.violation("kcolor:file-argument-fails", "%s: %s %r" % (label, st, F))
+                    continue
+                same_formula(ctx, "kcolor[file]", label, F, ref)
+                ctx.judged(("odd-name-spec", real, how), nontrivial=True, sample={"command": label})
+        # the tools' cli() entry point without an argument list reads the command line of the moment
+        import sys as _sys
+        for tool in ("cnfgen", "pbgen"):
+            from ..cliharness import tool_module
+            mod = tool_module(tool)
+            saved = _sys.argv
+            try:
+                for argv in ([tool, "-q", "php", "3", "2"], [tool, "-q", "op", "3"], [tool, "-q", "count", "4", "2"]):
+                    _sys.argv = list(argv)                 # re-bound, as a test harness or an embedding program does
+                    st, F = ctx.call(mod.cli, mode="formula")
+                    ctx.count("cli_without_argument_list")
+                    ref = cli_formula(tool, argv)
+                    label = "%s.cli(mode='formula') with sys.argv = %r" % (tool, argv)
+                    if st != "ok":
+                        ctx.violation("%s:cli-default-argv:%s" % (argv[2], type(F).__name__), "%s raised %r" % (label, F))
+                        continue
+                    same_formula(ctx, argv[2] + "[cli()]", label, F, ref)
+                    ctx.judged(("cli-default-argv", tool, tuple(argv[1:])), nontrivial=True, sample={"call": label})
+            finally:
+                _sys.argv = saved
         # dimacs sub-command: the formula of the file
         path = os.path.join(tmp, "f.cnf")
         cls = [[1, -2], [], [3, 3, -1], [-4]]
